@@ -53,7 +53,7 @@ def main():
                     raise SystemExit("mutant %s: pattern occurs %d times in %s (want %s)"
                                      % (m["id"], cnt, e["file"], want))
                 open(path, "w").write(src.replace(e["old"], e["new"]))
-            env = dict(os.environ, PYREX_REPO=tmp, VERIF_NO_EVIDENCE="1")
+            env = dict(os.environ, PYREX_REPO=tmp, VERIF_NO_EVIDENCE="1", VERIF_SCRATCH=os.path.join(tmp, "_scratch"))
             t0 = time.time()
             cmd = ["/venv/bin/python", os.path.join(HERE, "run.py"), pid, "--tier", "quick",
                    "--no-evidence"] + sum((["--only", s] for s in m.get("only", [])), [])
